@@ -1081,7 +1081,6 @@ func incrementOf(fn *ssa.Function, counter ssa.Value) func(ssa.Instruction) bool
 	return func(ssa.Instruction) bool { return false }
 }
 
-
 // c08Reasoned: wraps of a possible context error that are accepted, by function key, with the reason.
 var c08CtxWrapReasoned = map[string]string{
 	"(*components/providers/http/provider.Provider).loadAmmo<-LoadAmmo": "the preload happens before any ammo is delivered: every instance is still blocked in Acquire, so the engine's own end-of-run cancellation cannot arrive during it (only with zero started instances); an outside cancellation fails the run anyway",
